@@ -15,5 +15,5 @@ for vi, v in enumerate(c['versions']):
 for o in c['ops']:
     s = o['sched']
     if isinstance(s, dict) and 'Replay' in s: s = 'Replay' + str(s['Replay']['steps'])
-    print('OP', o['role'], 'v', o['version'], o['lang'], o['mode'], 'knobs', o['knobs'], 'hash', o['hash_seed'], 'sched', s, 'faults', o['faults'], 'extra', o['extra'], 'age', o.get('src_age', 0))
+    print("OP", o["role"], "v", o["version"], o["lang"], o["mode"], "roots", o.get("roots"), "out_sub", o.get("out_sub"), "obst", o.get("obstacle"), 'knobs', o['knobs'], 'hash', o['hash_seed'], 'sched', s, 'faults', o['faults'], 'extra', o['extra'], 'age', o.get('src_age', 0))
 print('notes', c['notes'], 'preseed', c.get('preseed'))
